@@ -1020,3 +1020,43 @@ Proof.
   - destruct H as [H|H]; [left; apply exp_increasing; exact H | right; rewrite H; reflexivity].
   - rewrite exp_Ropp. apply Rinv_le_contravar; [apply pow_lt; lra | apply exp_nat_ge].
 Qed.
+
+(* ------------------------------------------------------------------------------------------ *)
+(* Part 4: the shifted balance points never cross, for ANY numeric instance                     *)
+(* ------------------------------------------------------------------------------------------ *)
+(* get_smooth_coeffs as coded (with the guard of /repo 742a3de4): for an ordered input the shifted cooling balance
+   point is never below the shifted heating one, whatever the arithmetic does -- only two order-theoretic facts
+   about the comparisons of the instance are used (both hold for IEEE binary64, NaN included, and for R). *)
+Section AnyNum.
+Variable N : num.
+Hypothesis ltb_irrefl : forall x : N, @n_ltb N x x = false.
+Hypothesis leb_not_gt : forall a b : N, @n_leb N a b = true -> @n_ltb N b a = false.
+
+Lemma smooth_coeffs_never_cross : forall hb ph cb pc : N, @n_leb N hb cb = true ->
+  let '(hb', _, cb', _) := get_smooth_coeffs N hb ph cb pc in @n_ltb N cb' hb' = false.
+Proof.
+  intros hb ph cb pc Hle. unfold get_smooth_coeffs.
+  destruct (@n_ltb N ph (min_pct_k N) && @n_ltb N pc (min_pct_k N)).
+  - apply leb_not_gt. exact Hle.
+  - cbv zeta. rewrite Hle. cbn [andb].
+    match goal with |- context [if @n_ltb N ?a ?b then _ else _] => destruct (@n_ltb N a b) eqn:E end.
+    + apply ltb_irrefl.
+    + exact E.
+Qed.
+
+(* hence the swap that opens full_model does not fire on the vector get_smooth_coeffs produced *)
+Lemma smooth_vector_not_swapped : forall (hb ph cb pc hbeta cbeta i : N), @n_leb N hb cb = true ->
+  let '(hb', hk, cb', ck) := get_smooth_coeffs N hb ph cb pc in
+  order_bps N (Build_fullx N hb' hbeta hk cb' cbeta ck i) = Build_fullx N hb' hbeta hk cb' cbeta ck i.
+Proof.
+  intros hb ph cb pc hbeta cbeta i Hle.
+  pose proof (smooth_coeffs_never_cross hb ph cb pc Hle) as H.
+  destruct (get_smooth_coeffs N hb ph cb pc) as [[[hb' hk] cb'] ck].
+  unfold order_bps. cbn. rewrite H. reflexivity.
+Qed.
+End AnyNum.
+
+Lemma Rltb_irrefl : forall x : R, Rltb x x = false.
+Proof. intros x. apply Rltb_false. apply Rle_refl. Qed.
+Lemma Rleb_not_gt : forall a b : R, Rleb a b = true -> Rltb b a = false.
+Proof. intros a b H. apply Rleb_true in H. apply Rltb_false. exact H. Qed.
